@@ -113,7 +113,7 @@ impl OpSource for NameSource {
 }
 
 pub fn run_name(rep: &mut Report, args: &Args, cache: &mut VolCache, name: &str, in_dir: bool, seen_sigs: &mut BTreeSet<String>) {
-    let vc = VolCfg { fat: 12, bps: 512, spc: 1, nfats: 1, root_entries: 64, clusters: 64, extra: 0, garbage: false, slack: 0 };
+    let vc = VolCfg { fat: 12, bps: 512, spc: 1, nfats: 1, root_entries: 64, clusters: 64, extra: 0, garbage: false, slack: 0, used_device: false };
     let Ok((img, vb)) = cache.get(&vc) else {
         rep.inconclusive.push("template volume could not be formatted".into());
         return;
